@@ -59,6 +59,7 @@ def main():
     if not ck.build():
         ck.finish()
     ck.check_props()
+    ck.check_translation()
     base = G.collections(ck.rng, 250 if ck.quick else 1500, 2, 6) + G.collections(ck.rng, 250 if ck.quick else 3000, 7, 12) + \
         G.collections(ck.rng, 60 if ck.quick else 1500, 13, 16)
     base.append(("star", 5, ["XIIII", "ZIIII", "ZZIII", "ZIZII", "ZIIZI", "ZIIIZ", "ZZZZZ"]))
